@@ -213,6 +213,7 @@ def amonFor : String → List Monitor
   | "C04" => amonC04
   | "C14" => monC14
   | "C02" => [ fun _ st => at_ "commit-advanced-over-unverified-entries" (commitVerified st 0) ]
+  | "C18" => [ fun _ st => at_ "stale-request-renamed-the-leader" (staleRequestKeepsLeader st 0) ]
   | _ => []
 def hJudge := hJudgeWith (amonC06 ++ amonC04 ++ monC14)
 
@@ -252,6 +253,7 @@ def umonFor : String → List UMonitor
   | "C14" => monC14.map lift
   | "C07" => [ lift (fun _ st => at_ "latest-configuration-names-an-entry-that-is-gone" (latestConfigBacked st 0)) ]
   | "C12" => []
+  | "C18" => [ lift (fun _ st => at_ "stale-request-renamed-the-leader" (staleRequestKeepsLeader st 0)) ]
   | _ => umonAll
 
 def ufirstSome (u : UCase) (st : List Step) : List UMonitor → Option String
